@@ -95,6 +95,27 @@ struct Case {
     offers: bool,
     /// node whose at_sim_end returns an error (every other module is torn down all the same)
     fail_end: Option<usize>,
+    /// every top-level subtree is created by one ModuleBlock through the scoped builder (root
+    /// via `root`, descendants via `node` with relative paths), in the order they have in `order`
+    via_block: bool,
+}
+
+/// a module block that creates a whole subtree through the scoped builder
+struct Subtree {
+    root: Node,
+    /// (path relative to the root, module) in creation order
+    rest: Vec<(String, Node)>,
+}
+impl des::net::blocks::ModuleBlock for Subtree {
+    type Ret = usize;
+    fn build<A>(self, mut sim: des::net::SimBuilderScoped<'_, A>) -> usize {
+        let n = self.rest.len();
+        sim.root(self.root);
+        for (rel, node) in self.rest {
+            sim.node(rel.as_str(), node);
+        }
+        n + 1
+    }
 }
 
 fn paths(parent: &[Option<usize>]) -> Vec<String> {
@@ -109,7 +130,7 @@ fn paths(parent: &[Option<usize>]) -> Vec<String> {
 }
 
 fn case_json(c: &Case) -> Value {
-    json!({"parent": c.parent, "paths": paths(&c.parent), "insertion_order": c.order, "stages": c.stages, "rejected_offers_in_between": c.offers, "at_sim_end_fails_in": c.fail_end})
+    json!({"parent": c.parent, "paths": paths(&c.parent), "insertion_order": c.order, "stages": c.stages, "rejected_offers_in_between": c.offers, "at_sim_end_fails_in": c.fail_end, "subtrees_created_by_module_blocks": c.via_block})
 }
 fn case_from(v: &Value) -> Case {
     Case {
@@ -118,6 +139,7 @@ fn case_from(v: &Value) -> Case {
         stages: v["stages"].as_array().unwrap().iter().map(|p| p.as_u64().unwrap() as usize).collect(),
         offers: v["rejected_offers_in_between"].as_bool().unwrap_or(false),
         fail_end: v["at_sim_end_fails_in"].as_u64().map(|x| x as usize),
+        via_block: v["subtrees_created_by_module_blocks"].as_bool().unwrap_or(false),
     }
 }
 
@@ -127,14 +149,74 @@ fn run_case(c: &Case) -> Result<u64, String> {
 }
 
 fn run_inner(c: &Case) -> Result<u64, String> {
+    if c.via_block {
+        return run_blocks(c);
+    }
+    run_plain(c)
+}
+
+/// the same declaration, every top-level subtree created by one module block: the creation order
+/// becomes "root, then its descendants in their relative order", which is what the expectation uses
+fn run_blocks(c: &Case) -> Result<u64, String> {
+    let n = c.parent.len();
+    let root_of = |mut i: usize| {
+        while let Some(p) = c.parent[i] {
+            i = p;
+        }
+        i
+    };
+    let mut eff: Vec<usize> = vec![];
+    for &i in &c.order {
+        if c.parent[i].is_none() {
+            eff.push(i);
+            eff.extend(c.order.iter().copied().filter(|&k| k != i && root_of(k) == i));
+        }
+    }
+    debug_assert_eq!(eff.len(), n);
+    let mut c2 = c.clone();
+    c2.order = eff;
+    c2.via_block = false;
+    BLOCKS.with(|b| b.set(true));
+    let r = run_plain(&c2);
+    BLOCKS.with(|b| b.set(false));
+    r
+}
+thread_local! {
+    static BLOCKS: std::cell::Cell<bool> = const { std::cell::Cell::new(false) };
+}
+
+fn run_plain(c: &Case) -> Result<u64, String> {
     let n = c.parent.len();
     let ps = paths(&c.parent);
     let log: Log = Default::default();
     let ids: Ids = Default::default();
     let mut sim = Sim::new(());
-    for (k, &i) in c.order.iter().enumerate() {
+    let blocks = BLOCKS.with(|b| b.get());
+    let mk_node = |i: usize| {
         let children: Vec<String> = (0..n).filter(|&k| c.parent[k] == Some(i)).map(|k| ps[k].clone()).collect();
-        sim.node(ps[i].as_str(), Node { path: ps[i].clone(), log: log.clone(), stages: c.stages[i], children, ids: ids.clone(), fail_end: c.fail_end == Some(i) });
+        Node { path: ps[i].clone(), log: log.clone(), stages: c.stages[i], children, ids: ids.clone(), fail_end: c.fail_end == Some(i) }
+    };
+    if blocks {
+        let root_of = |mut i: usize| {
+            while let Some(p) = c.parent[i] {
+                i = p;
+            }
+            i
+        };
+        for &r in c.order.iter().filter(|&&i| c.parent[i].is_none()) {
+            let rest: Vec<(String, Node)> = c.order.iter().copied().filter(|&k| k != r && root_of(k) == r).map(|k| (ps[k][ps[r].len() + 1..].to_string(), mk_node(k))).collect();
+            let expect = rest.len() + 1;
+            let made = sim.node(ps[r].as_str(), Subtree { root: mk_node(r), rest });
+            if made != expect {
+                return Err("machinery: module block built a different number of nodes".into());
+            }
+        }
+    }
+    for (k, &i) in c.order.iter().enumerate() {
+        if blocks {
+            break;
+        }
+        sim.node(ps[i].as_str(), mk_node(i));
         if c.offers {
             let junk: Log = Default::default();
             let mut offer = |p: String| -> bool {
@@ -247,7 +329,7 @@ impl Property for C12 {
         format!(
             "every rooted forest with 1..={} nodes (names a, ab, b, a1, abc, c: prefix-sharing siblings and parent/child names) x every linear extension of parent-before-child as insertion order x every assignment of 0..3 start stages (a module declaring none is never started; for up to {} nodes; larger trees: all assignments with at most 2 nodes deviating from 1 stage); \
              oracle: at_sim_start log == stage-major, depth-first pre-order with siblings in creation order, exactly once per declared stage, all before the first event; at_sim_end exactly once per module after the last event; parent()/child()/path()/name() agree with the declared tree, and the module a lookup returns is the declared one (same id as that module sees for itself); \
-             duplicate path and missing parent rejected at depths 1..3; per (forest, insertion order) one more run in which, after every insertion, every path inserted so far and an orphan are offered again: each offer must be rejected and the run must be unchanged; and one run in which one module's at_sim_end returns an error: run() reports it and every module is still torn down exactly once; non-trivial = forest with at least 3 nodes",
+             duplicate path and missing parent rejected at depths 1..3; per (forest, insertion order) one more run in which, after every insertion, every path inserted so far and an orphan are offered again: each offer must be rejected and the run must be unchanged; one run in which every top-level subtree is created by a ModuleBlock through the scoped builder (root / node with relative paths); and one run in which one module's at_sim_end returns an error: run() reports it and every module is still torn down exactly once; non-trivial = forest with at least 3 nodes",
             tier.pick(5, 6),
             tier.pick(4, 4)
         )
@@ -256,7 +338,7 @@ impl Property for C12 {
         vec!["modules are created through the simulation builder (Sim::node); NDL-built trees are C18's subject".into()]
     }
     fn required_features(&self, _tier: Tier) -> Vec<&'static str> {
-        vec!["interleaved_children_of_different_parents", "multi_stage_module", "depth_three_tree", "builder_rejections", "several_roots", "rejected_offers_between_insertions", "tear_down_reporting_an_error", "module_without_start_stage"]
+        vec!["interleaved_children_of_different_parents", "multi_stage_module", "depth_three_tree", "builder_rejections", "several_roots", "rejected_offers_between_insertions", "tear_down_reporting_an_error", "module_without_start_stage", "subtrees_created_by_module_blocks"]
     }
     fn explore(&self, ctx: &mut Ctx) {
         if ctx.is_first_shard() {
@@ -324,13 +406,16 @@ impl Property for C12 {
                     }
                     // children of different parents interleaved in the insertion order
                     let interleaved = perm.windows(3).any(|w| par[w[0]].is_some() && par[w[0]] == par[w[2]] && par[w[1]] != par[w[0]] && par[w[1]].is_some());
-                    for (si, stages) in stage_sets.iter().enumerate().flat_map(|(i, s)| if i == 0 { vec![(0usize, s), (usize::MAX, s), (usize::MAX - 1, s)] } else { vec![(i, s)] }) {
+                    for (si, stages) in stage_sets.iter().enumerate().flat_map(|(i, s)| if i == 0 { vec![(0usize, s), (usize::MAX, s), (usize::MAX - 1, s), (usize::MAX - 2, s)] } else { vec![(i, s)] }) {
                         if !ctx.mine() {
                             continue;
                         }
                         // the failing module rotates with the insertion order
                         let fail_end = (si == usize::MAX - 1).then(|| perm[perm.len() / 2]);
-                        let c = Case { parent: par.clone(), order: perm.clone(), stages: stages.clone(), offers: si == usize::MAX, fail_end };
+                        let c = Case { parent: par.clone(), order: perm.clone(), stages: stages.clone(), offers: si == usize::MAX, fail_end, via_block: si == usize::MAX - 2 };
+                        if c.via_block {
+                            ctx.hit("subtrees_created_by_module_blocks");
+                        }
                         if fail_end.is_some() {
                             ctx.hit("tear_down_reporting_an_error");
                         }
